@@ -322,7 +322,20 @@ Definition ctl_fail (c : acfg) (dec : Z -> Z) (cur : Z) : Z :=
 
 (* the instance used by the executable scripts: factor = num/den, exact in binary64 for the
    generated (factor, limit) pairs (see gen/c08.py: checked there with IEEE doubles) *)
-Definition dec_q (num den x : Z) : Z := if den =? 0 then 0 else (x * num) / den.
+(* [r53 x] = (x as f64) for 0 <= x < 2^64: round to nearest, ties to even, to 53 significant
+   bits. With it the instance is exact for EVERY limit when the factor is 1 (num = den: the
+   value (x as f64) as usize, saturating at usize::MAX -- the reason for the upper clamp in
+   record_failure) or 1/2^k (the product by a power of two is exact, the cast truncates); for
+   other factors only on the small limits the generator checks with IEEE doubles. *)
+Definition r53 (x : Z) : Z :=
+  if x <? 2 ^ 53 then x
+  else
+    let p := 2 ^ (Z.log2 x - 52) in
+    let q := x / p in
+    let r := x mod p in
+    (if (p <? 2 * r) || ((2 * r =? p) && Z.odd q) then q + 1 else q) * p.
+Definition dec_q (num den x : Z) : Z :=
+  if den =? 0 then 0 else Z.min ((r53 x * num) / den) U64MAX.
 
 (* ---- AIMD budget ---- *)
 Record bcfg := { b_ctl : acfg; b_amt : Z; b_w : Z }.
